@@ -160,7 +160,7 @@ def register(claim, not_yet):
     claim('C16',
           'Proved: on all 12 transform paths of the dtype abstract interpretation the result dtype equals the input dtype when the buffers match it, whatever the default dtype, and the call raises '
           'exactly when they differ (tied to the code by an exhaustive 96-case grid correspondence); over the reals |sum a_j x_j| <= (sum |a_j|) max|x| and gains compose, which is the a-priori '
-          'bound the float tier uses. Measured on the real code: float32 vs float64 within 64*eps32*(gain*max|x|+bias) with the gain extracted from unit impulses, .float()/.double() conversions, '
+          'bound the float tier uses; at the level of the implementation model: every output sample of afb1d in the extension modes is bounded by ||w||_1 max|x| (C16G.afb1dOne_gain) and every coefficient of J levels of wavedec (= DWT1DForward in zero/symmetric/periodic, C01) by max(||h0||_1, ||h1||_1, 1)^J max|x| (C16G.wavedec_gain). Measured on the real code: float32 vs float64 within 64*eps32*(gain*max|x|+bias) with the gain extracted from unit impulses, .float()/.double() conversions, '
           'non-contiguous views vs contiguous copies. IEEE rounding and strides are runtime (partial).' + BRK,
           'Lean 4 theorems (dtype propagation by cases, gain bound over R) + exhaustive dtype-grid correspondence + float32/stride oracle', 'DESIGN.md §4 C16',
           'rounding and memory layout are measured, not proved: partial.')
